@@ -59,15 +59,21 @@ def _nanlist(a):
     return [None if (isinstance(x, float) and x != x) else x for x in a]
 
 
-def gen_cfg(rng, kind, nsub, aggs="one", max_cells=700):
+def gen_cfg(rng, kind, nsub, aggs="one", max_cells=700, shapes=None, rows=None):
     """A cube of `kind` with `nsub` sub-cubes.  aggs: "one" (a single random aggregate), "all" (every
-    aggregate the cube type has, together) or "some" (2..4 together)."""
+    aggregate the cube type has, together) or "some" (2..4 together).  `shapes` (extra-axis shapes per
+    dimension) and `rows` (a (lo, hi) range for N) override the small defaults: the 'scale' configurations
+    of C16 / C20 (wide dims, rows x sub-cubes beyond size thresholds) are made with them."""
+    fixed_shapes = shapes
     for _ in range(200):
         big = aggs == "all" and nsub > 5
-        shapes = gen_layout(rng, nsub, max_dims=1 if big else (2 if aggs != "one" else 3))
+        if fixed_shapes is not None:
+            shapes = [tuple(s) for s in fixed_shapes]
+        else:
+            shapes = gen_layout(rng, nsub, max_dims=1 if big else (2 if aggs != "one" else 3))
         ndims = len(shapes)
         ext = 2 if (big or ndims > 1 or rng.random() < 0.6) else 3
-        N = rng.choice([1, 2, 3, 4, 5, 6, 8])
+        N = rng.choice([1, 2, 3, 4, 5, 6, 8]) if rows is None else rng.randint(rows[0], rows[1])
         dims = []
         for s in shapes:
             size = N * int(numpy.prod(s, dtype=int))
@@ -108,6 +114,20 @@ def gen_cfg(rng, kind, nsub, aggs="one", max_cells=700):
         if estimate_cells(cfg) <= max_cells:
             return cfg
     raise RuntimeError("no configuration within the size limit")
+
+
+def gen_wide_cfg(rng, kind, variant, aggs="one"):
+    """'scale' configuration of C16: one 2-D dimension with 17..24 columns ("wide"), or one with 16..20 columns
+    crossed with a 1-D dimension ("crossed", either order); 40..60 rows.  Anything in calculate that is bounded by
+    a small constant (a memo, a buffer pool, a batch) is exceeded by the number of distinct 1-D slices here."""
+    if variant == "wide":
+        shapes = [(rng.randint(17, 24),)]
+    else:
+        shapes = [(rng.randint(16, 20),), ()]
+        if rng.random() < 0.5:
+            shapes.reverse()
+    nsub = int(numpy.prod([e for s in shapes for e in s], dtype=int))
+    return gen_cfg(rng, kind, nsub, aggs=aggs, max_cells=900, shapes=shapes, rows=(40, 60))
 
 
 def estimate_cells(cfg):
